@@ -118,8 +118,9 @@ type closureInfo struct {
 }
 
 type loopFrame struct {
-	keys map[string]map[string]bool // key -> set of object terms ("*" = whole key)
-	all  bool
+	keys  map[string]map[string]bool // key -> set of object terms ("*" = whole key)
+	sorts map[string]string          // sort of each key as registered in the dry pass (a key first used inside the body is not registered yet when the header is reached in the real pass)
+	all   bool
 }
 
 type frame struct {
@@ -516,6 +517,7 @@ func (f *FnCtx) runTop() {
 	fr.checkContractParamsStable(st)
 	fr.sweepGlobalsReadOnly(st)
 	fr.sweepCopyLocks(st)
+	fr.sweepNoStdout(st)
 	ret := fr.run(st)
 	if ret == nil {
 		return // never returns normally
@@ -1084,6 +1086,9 @@ func (fr *frame) loopHeader(h *ssa.BasicBlock, st *bstate) *bstate {
 			nh.byCall = true
 			own := map[string]bool{}
 			for k := range lf.keys {
+				if f.hs.sorts[k] == "" && lf.sorts[k] != "" {
+					f.hs.regKey(k, lf.sorts[k])
+				}
 				if k != "G.lockheld" && f.hs.sorts[k] != "" {
 					own[k] = true
 				}
@@ -1099,6 +1104,9 @@ func (fr *frame) loopHeader(h *ssa.BasicBlock, st *bstate) *bstate {
 		nh = pre
 		for _, key := range sortedKeys(lf.keys) {
 			objs := lf.keys[key]
+			if f.hs.sorts[key] == "" && lf.sorts[key] != "" {
+				f.hs.regKey(key, lf.sorts[key])
+			}
 			srt := f.hs.sorts[key]
 			if srt == "" || key == "G.lockheld" {
 				continue // lock state: automatic invariant "as at loop entry", checked on every back edge
@@ -1309,6 +1317,12 @@ func collectWrites(f *FnCtx, h, stop *Heap, lf *loopFrame, seen map[*Heap]bool) 
 			if m == nil {
 				m = map[string]bool{}
 				lf.keys[key] = m
+			}
+			if lf.sorts == nil {
+				lf.sorts = map[string]string{}
+			}
+			if srt := f.hs.sorts[key]; srt != "" {
+				lf.sorts[key] = srt
 			}
 			if obj == "" {
 				obj = "*"
@@ -2708,5 +2722,25 @@ func (fr *frame) sweepCopyLocks(st *bstate) {
 	check(sig.Recv(), "receiver")
 	for i := 0; i < sig.Params().Len(); i++ {
 		check(sig.Params().At(i), "parameter "+sig.Params().At(i).Name())
+	}
+}
+
+// sweep kind "nostdout": the function does not mention os.Stdout.  In a stdio server the process's standard
+// output is the protocol stream: only the stdio transport's serve functions (outside the scope) hand it out, and
+// nothing else of the library - loggers included - may write there.  Structural.
+func (fr *frame) sweepNoStdout(st *bstate) {
+	f := fr.f
+	if !f.sweep["nostdout"] || f.dry {
+		return
+	}
+	for _, b := range fr.fn.Blocks {
+		for _, in := range b.Instrs {
+			for _, op := range in.Operands(nil) {
+				if g, ok := (*op).(*ssa.Global); ok && g.Pkg != nil && g.Pkg.Pkg.Path() == "os" && g.Name() == "Stdout" {
+					f.oblige(st, fmt.Sprintf("%s#standard-output-left-to-the-stdio-transport", fnShortName(fr.fn)), "safety", f.sweepTags, "false",
+						"os.Stdout is used here; in a stdio server that is the protocol stream", posStr(f.e.fset, in.Pos()))
+				}
+			}
+		}
 	}
 }
